@@ -257,7 +257,7 @@ fn case<S: GElem>(ctx: &Ctx, rep: &mut Report, case: u64, g: &mut Sm64) {
 }
 
 pub fn run(ctx: &Ctx, rep: &mut Report) {
-    for c in ctx.case_ids("history", 1200, 120_000) {
+    for c in ctx.case_ids("history", 1200, 2_000_000) {
         let mut g = ctx.rng("history", c);
         match c % 3 {
             0 => case::<f64>(ctx, rep, c, &mut g),
